@@ -484,7 +484,7 @@ def _shapes():
         (ch, 'huge-padding', lambda n: client_hello(exts=ext(21, bytes(n))), 65000),
         (ch, 'huge-session-ticket', lambda n: client_hello(exts=ext(35, bytes(n))), 65000),
         (ch, 'huge-unparsed-extension', lambda n: client_hello(exts=ext(0xffaa, bytes(n))), 65000),
-        (ch, 'trailing-bytes-in-payload', lambda n: hs(1, client_hello()[4:] + vec(2, ext(23, b'')) + bytes(n)), None),
+        (ch, 'trailing-bytes-in-payload', lambda n: hs(1, client_hello()[4:] + vec(2, ext(23, b'')) + bytes(n)), 16000000),
         (ch, 'truncated-cipher-suites', lambda n: client_hello(suites=b'\x00\x2f' * n)[:-(n + 3)], cap2),
         (ch, 'odd-cipher-suites', lambda n: client_hello(suites=b'\x00\x2f' * n + b'\x00'), cap2),
     ]
@@ -497,17 +497,17 @@ def _shapes():
     ]
     cert = TLS + 'TlsHandshakeCertificate'
     s += [
-        (cert, 'many-certificates', lambda n: hs(11, vec(3, vec(3, b'\x30\x00') * n)), None),
-        (cert, 'many-empty-certificates', lambda n: hs(11, vec(3, vec(3, b'') * n)), None),
+        (cert, 'many-certificates', lambda n: hs(11, vec(3, vec(3, b'\x30\x00') * n)), 3000000),
+        (cert, 'many-empty-certificates', lambda n: hs(11, vec(3, vec(3, b'') * n)), 5000000),
         (cert, 'huge-certificate', lambda n: hs(11, vec(3, vec(3, bytes(n)))), 2 ** 24 - 10),
-        (cert, 'truncated-many', lambda n: hs(11, vec(3, vec(3, b'\x30\x00') * n))[:-1], None),
+        (cert, 'truncated-many', lambda n: hs(11, vec(3, vec(3, b'\x30\x00') * n))[:-1], 3000000),
     ]
     s += [
         (TLS + 'TlsHandshakeMessageVariant', 'client-hello-many-suites', lambda n: client_hello(suites=b'\x00\x2f' * n), cap2),
-        (TLS + 'TlsHandshakeMessageVariant', 'certificate-many', lambda n: hs(11, vec(3, vec(3, b'\x30\x00') * n)), None),
-        (TLS + 'TlsHandshakeMessageVariant', 'unknown-type-huge', lambda n: hs(99, bytes(n)), None),
-        (TLS + 'TlsHandshakeServerKeyExchange', 'huge-params', lambda n: hs(12, bytes(n)), None),
-        (TLS + 'TlsHandshakeCertificateStatus', 'huge-status', lambda n: hs(22, b'\x01' + vec(3, bytes(n))), None),
+        (TLS + 'TlsHandshakeMessageVariant', 'certificate-many', lambda n: hs(11, vec(3, vec(3, b'\x30\x00') * n)), 3000000),
+        (TLS + 'TlsHandshakeMessageVariant', 'unknown-type-huge', lambda n: hs(99, bytes(n)), 16000000),
+        (TLS + 'TlsHandshakeServerKeyExchange', 'huge-params', lambda n: hs(12, bytes(n)), 16000000),
+        (TLS + 'TlsHandshakeCertificateStatus', 'huge-status', lambda n: hs(22, b'\x01' + vec(3, bytes(n))), 16000000),
         (TLS + 'TlsHandshakeCertificateRequest', 'many-names',
          lambda n: hs(13, vec(1, b'\x01') + vec(2, b'\x04\x03') + vec(2, vec(2, b'\x30\x00') * n)), 16000),
         (TLS + 'TlsHandshakeCertificateRequest', 'many-sigalgs',
@@ -864,13 +864,18 @@ def verdict(name, shape, rows, blame=None):
         first = [r['bytes'] for r in rows if r['outcome'] == 'RecursionError'][0]
         out.append(('depth:' + blame, '{} [{}]: the nesting of the input drives the recursion depth: RecursionError escapes '
                     'the parse of {} bytes (outcomes {})'.format(name, shape, first, [r['outcome'] for r in rows])))
-    sl = slopes(rows)
-    if len(sl) >= 2 and rows[0]['bytes'] >= 16:
+    # the slope test compares like with like: only the trailing sizes that end in the same outcome (another outcome is
+    # another code path, e.g. accepted up to a limit and rejected beyond it)
+    same = list(rows)
+    while same and same[0]['outcome'] != rows[-1]['outcome']:
+        same = same[1:]
+    sl = slopes(same)
+    if len(sl) >= 2 and same[0]['bytes'] >= 16:
         first, last = sl[0], sl[-1]
-        if last > SLOPE_RATIO * max(first, 1.0) and rows[-1]['events'] - rows[0]['events'] > 2000:
+        if last > SLOPE_RATIO * max(first, 1.0) and same[-1]['events'] - same[0]['events'] > 2000:
             out.append(('superlinear:{}:{}'.format(name, shape),
                         '{} [{}]: line events grow faster than the input: bytes {} -> events {} (slopes {})'.format(
-                            name, shape, [r['bytes'] for r in rows], [r['events'] for r in rows],
+                            name, shape, [r['bytes'] for r in same], [r['events'] for r in same],
                             ['%.1f' % x for x in sl])))
     d = [r['depth'] for r in rows]
     if len(d) >= 4 and d[3] > d[2] > d[0]:
@@ -896,7 +901,10 @@ def time_rows(cls, build, cap, rows, upto, until):
         n += 1
         if cap is not None and units > cap:
             break
-        data = build(units)
+        try:
+            data = build(units)
+        except (OverflowError, ValueError, MemoryError):     # the shape cannot be built that large
+            break
         secs = wall(cls, data)
         if secs is None:
             out.append({'units': units, 'bytes': len(data), 'secs': float(TIME_LIMIT), 'outcome': 'HANG'})
